@@ -22,3 +22,6 @@ Proof. pc_zero. Qed.
 Lemma pc_transform_coherency_mueller_circ j00r j00i j01r j01i j10r j10i j11r j11i p00r p00i p01r p01i p10r p10i p11r p11i :
   transform_coherency_mueller_circ_pc (OO:=ROps) j00r j00i j01r j01i j10r j10i j11r j11i p00r p00i p01r p01i p10r p10i p11r p11i.
 Proof. pc_zero. Qed.
+Lemma law_spinor_linear_ops xr xi yr yi ur ui vr vi a : a <> 0 ->
+  halves_eq 16 (spinor_linear_ops (OO:=ROps) xr xi yr yi ur ui vr vi a).
+Proof. intros Ha; unfold halves_eq; autounfold with gen; ops_R; cbn [firstn skipn]; list_eq ltac:(first [ ring | (field; exact Ha) ]). Qed.
